@@ -122,6 +122,7 @@ type Outcome struct {
 	HandlerNil  bool
 	BaseID      string
 	BaseKind    string
+	BuiltFor    string // for built 405 / OPTIONS handlers: Pattern() of the node they were built for
 	Pattern     string
 	NodeNil     bool
 	Params      map[string]string
@@ -225,6 +226,9 @@ func Call(w http.ResponseWriter, r *http.Request, route types.Route, h *H) {
 		o.HandlerID = h.ID
 		if b := h.Base(); b != nil {
 			o.BaseID, o.BaseKind = b.ID, b.Kind
+			if b.Node != nil {
+				o.BuiltFor = b.Node.Pattern()
+			}
 		}
 	}
 	h.exec(w, r, o)
